@@ -135,7 +135,7 @@ FieldType(code) == CASE code \in {F_PATH, F_CI} -> cO
 
 FieldCode(f) == f.v[1].v[1]
 FieldVar(f) == f.v[2]
-FieldOk(f) ==
+FieldOkL(f, L) ==
   LET code == FieldCode(f)  var == FieldVar(f)  val == var.v.v IN
   IF code = 0 THEN FALSE
   ELSE IF code > 10 THEN TRUE
@@ -144,8 +144,8 @@ FieldOk(f) ==
             [] code = F_IFC -> InterfaceValid(val) /\ val # S_org_freedesktop_DBus_Local
             [] code = F_MEM -> MemberValid(val)
             [] code = F_ERR -> ErrorNameValid(val)
-            [] code = F_DST -> BusNameValid(val)
-            [] code = F_SND -> BusNameValid(val)
+            [] code = F_DST -> BusNameValidL(val, L)
+            [] code = F_SND -> BusNameValidL(val, L)
             [] code = F_RS -> val # <<0,0,0,0>>
             [] OTHER -> TRUE
 HasField(fs, code) == \E k \in 1..Len(fs) : FieldCode(fs[k]) = code
@@ -172,7 +172,8 @@ Fixed(b) ==
 
 \* b holds exactly one message (Len(b) = total length): [ok, m]
 NoMsg == [ok |-> FALSE, m |-> <<>>]
-MessageDecX(b, nfds, strict) ==
+\* L: tolerate the lenient unique names of the known defect (deviation LenientUniqueName) in DESTINATION / SENDER
+MessageDecXL(b, nfds, strict, L) ==
   IF Len(b) < 16 THEN NoMsg
   ELSE LET fx == Fixed(b) IN
   IF ~fx.ok \/ fx.total # Len(b) THEN NoMsg
@@ -181,7 +182,7 @@ MessageDecX(b, nfds, strict) ==
   ELSE LET fr == DecVal(b, hend, HdrSig, 1, 12, le, 0) IN
   IF ~fr.ok \/ fr.p # hend \/ ~ZeroPad(b, hend, hl - hend) THEN NoMsg
   ELSE LET fs == fr.v.v IN
-  IF ~(\A k \in 1..Len(fs) : FieldOk(fs[k])) \/ ~NoDupFields(fs) \/ (strict /\ ~Mandatory(ty, fs)) THEN NoMsg
+  IF ~(\A k \in 1..Len(fs) : FieldOkL(fs[k], L)) \/ ~NoDupFields(fs) \/ (strict /\ ~Mandatory(ty, fs)) THEN NoMsg
   ELSE LET sig == FieldVal(fs, F_SIG, <<>>)
            body == BodyDec(Slice(b, hl, fx.blen), sig, le)
            fdsv == FieldVal(fs, F_FDS, <<0,0,0,0>>) IN
@@ -195,20 +196,26 @@ MessageDecX(b, nfds, strict) ==
         unk |-> SelectSeq([k \in 1..Len(fs) |-> FieldCode(fs[k])], LAMBDA c : c > 10),
         mandatory |-> Mandatory(ty, fs), nfd |-> fdsv[1]]
 
-MessageDec(b, nfds) == LET d == MessageDecX(b, nfds, TRUE) IN [ok |-> d.ok, m |-> d.m]
+MessageDecX(b, nfds, strict) == MessageDecXL(b, nfds, strict, FALSE)
+FieldOk(f) == FieldOkL(f, FALSE)
+MessageDecL(b, nfds, L) == LET d == MessageDecXL(b, nfds, TRUE, L) IN [ok |-> d.ok, m |-> d.m]
+MessageDec(b, nfds) == MessageDecL(b, nfds, FALSE)
+MessageValidL(b, nfds, L) == MessageDecL(b, nfds, L).ok
 MessageValid(b, nfds) == MessageDec(b, nfds).ok
 
 \* ------------------------------------------------------------------ framing of a stream
 \* Frame(b): what a loader that has received the bytes b so far has produced: the serials (as byte tuples) of
 \* the complete valid messages, in order, and whether the stream has been found corrupt.
-RECURSIVE FrameFrom(_,_,_)
-FrameFrom(b, p, acc) ==
+RECURSIVE FrameFromL(_,_,_,_)
+FrameFromL(b, p, acc, L) ==
   IF Len(b) - p < 16 THEN [out |-> acc, corrupt |-> FALSE, used |-> p]
   ELSE LET hd == Slice(b, p, 16)  fx == Fixed(hd) IN
        IF ~fx.ok THEN [out |-> acc, corrupt |-> TRUE, used |-> p]
        ELSE IF Len(b) - p < fx.total THEN [out |-> acc, corrupt |-> FALSE, used |-> p]
-       ELSE LET one == Slice(b, p, fx.total)  d == MessageDec(one, 0) IN
+       ELSE LET one == Slice(b, p, fx.total)  d == MessageDecL(one, 0, L) IN
             IF ~d.ok THEN [out |-> acc, corrupt |-> TRUE, used |-> p]
-            ELSE FrameFrom(b, p + fx.total, Append(acc, d.m.ser))
-Frame(b) == FrameFrom(b, 0, <<>>)
+            ELSE FrameFromL(b, p + fx.total, Append(acc, d.m.ser), L)
+FrameFrom(b, p, acc) == FrameFromL(b, p, acc, FALSE)
+FrameL(b, L) == FrameFromL(b, 0, <<>>, L)
+Frame(b) == FrameL(b, FALSE)
 =============================================================================
